@@ -144,7 +144,7 @@ func init() {
 	core.Register(&core.Prop{
 		ID:    "C03",
 		Level: "exploration",
-		Rule:  "E1: for every corpus schema every single structural mutation at every JSON position (value replaced by each of 12 values, member/element deleted, object<->array swapped, key duplicated with a second value) and every pair of mutations inside file_declaration (reduced value set), plus raw byte strings over {{,},\",:,a,0xFF} to length 6; every accepted mutant is run on the corpus inputs. E2: every registered custom_func x argument count 0..4 x argument kinds {string,int,float,boolean,array,absent}. E3: every corpus schema on every token string up to length L, every single-token deletion/duplication of its inputs, concatenations of two inputs and a 0x00-0xFF byte ramp. Oracle: NewSchema/NewTransform/Read return (no panic), a terminal result within 2*len+8 Reads, no call exceeding the watchdog. Distinct by (family, schema or function shape, input); outcome class = (family, accepted?, number of results); replacement values include integer spellings only a validator accepts (1.0, 1e0, 1e20); every single mutation is also hidden from validation (case-variant section after the intact one; earlier occurrence whose member the later one leaves out); ~330 xpath expressions at every xpath position, in 8 contexts and from the input; odd JavaScript results; adversarial regexes",
+		Rule:  "E1: for every corpus schema every single structural mutation at every JSON position (value replaced by each of 12 values, member/element deleted, object<->array swapped, key duplicated with a second value) and every pair of mutations inside file_declaration (reduced value set), plus raw byte strings over {{,},\",:,a,0xFF} to length 6; every accepted mutant is run on the corpus inputs. E2: every registered custom_func x argument count 0..4 x argument kinds {string,int,float,boolean,array,absent}. E3: every corpus schema on every token string up to length L, every single-token deletion/duplication of its inputs, concatenations of two inputs and a 0x00-0xFF byte ramp. Oracle: NewSchema/NewTransform/Read return (no panic), a terminal result within 2*len+8 Reads, no call exceeding the watchdog. Distinct by (family, schema or function shape, input); outcome class = (family, accepted?, number of results); replacement values include integer spellings only a validator accepts (1.0, 1e0, 1e20); every single mutation is also hidden from validation (case-variant section after the intact one; earlier occurrence whose member the later one leaves out); ~330 xpath expressions at every xpath position, in 8 contexts and from the input; odd JavaScript results; adversarial regexes; comparisons used as node-sets inside predicates and function arguments (23 expressions + 7 accepted look-alikes); documents nested 100 ... 1 000 000 levels deep x 4 declarations that walk the tree",
 		Assumptions: []string{
 			"user JavaScript that loops and caller-registered functions are outside the claim",
 			"a hang is a case that makes no progress for 45 s (normal cases take microseconds to milliseconds); memory blow-up beyond 6 GB is reported the same way",
